@@ -728,6 +728,15 @@ def always_returns(ss):
 def analyse_bounds(ss, arrays, unsigned_max, aliases=None):
     """returns list of (array, index, guarded)"""
     res = []
+    alias = {}     # const int NAME = <conjunction>;  NAME true implies the facts of the conjunction
+
+    def bfacts(c, positive):
+        f = bound_facts(c, positive, unsigned_max)
+        if positive:
+            for p in conj(c):
+                if p[0] == "id" and p[1] in alias:
+                    f |= alias[p[1]]
+        return f
 
     def cond_sites(c, facts):
         # && chain: conjunct k guarded by conjuncts < k
@@ -738,10 +747,10 @@ def analyse_bounds(ss, arrays, unsigned_max, aliases=None):
                 g = set(f)
                 for d in disj(p):
                     expr_sites(d, g)
-                    g |= bound_facts(d, False, unsigned_max)
+                    g |= bfacts(d, False)
             else:
                 expr_sites(p, f)
-            f |= bound_facts(p, True, unsigned_max)
+            f |= bfacts(p, True)
 
     def expr_sites(e, facts):
         acc = []
@@ -755,14 +764,14 @@ def analyse_bounds(ss, arrays, unsigned_max, aliases=None):
             k = s[0]
             if k == "if":
                 cond_sites(s[1], facts)
-                walk(s[2], facts | bound_facts(s[1], True, unsigned_max))
+                walk(s[2], facts | bfacts(s[1], True))
                 if s[3] is not None:
-                    walk(s[3], facts | bound_facts(s[1], False, unsigned_max))
+                    walk(s[3], facts | bfacts(s[1], False))
                 if always_returns(s[2]) and s[3] is None:
-                    facts |= bound_facts(s[1], False, unsigned_max)
+                    facts |= bfacts(s[1], False)
             elif k == "while":
                 cond_sites(s[1], facts)
-                walk(s[2], facts | bound_facts(s[1], True, unsigned_max))
+                walk(s[2], facts | bfacts(s[1], True))
             elif k == "do":
                 walk(s[1], facts)
                 cond_sites(s[2], facts)
@@ -775,7 +784,11 @@ def analyse_bounds(ss, arrays, unsigned_max, aliases=None):
                 walk(s[1], facts)
             elif k == "decl":
                 if s[3] is not None:
-                    expr_sites(s[3], facts)
+                    if s[1].replace("const ", "") in ("int", "bool") and s[3][0] == "bin" and s[3][1] == "&&":
+                        cond_sites(s[3], facts)
+                        alias[s[2]] = bfacts(s[3], True)
+                    else:
+                        expr_sites(s[3], facts)
             elif k == "expr":
                 expr_sites(s[1], facts)
             elif k == "return":
@@ -804,6 +817,10 @@ def strip_loader(ss, real):
 
 
 EAGAIN_TXT = {"((errno==EWOULDBLOCK)||(errno==EAGAIN))", "((errno==EAGAIN)||(errno==EWOULDBLOCK))"}
+# a helper that re-reads errno on the current kernel thread (set by translate() when the
+# source defines it with the expected body and noinline)
+EAGAIN_HELPER = "fiber_io_would_block()"
+HELPER_OK = [False]
 
 
 def split_retry_cond(c, retvar, fdvar, name):
@@ -814,8 +831,12 @@ def split_retry_cond(c, retvar, fdvar, name):
     rest = parts[1:]
     if not rest:
         reject("%s: retry condition has no errno test" % name)
+    fresh = False
     if rest[0] in EAGAIN_TXT:
         err = "EAGAIN"
+    elif rest[0] == EAGAIN_HELPER and HELPER_OK[0]:
+        err = "EAGAIN"
+        fresh = True
     elif rest[0] == "(errno==EINPROGRESS)":
         err = "EINPROGRESS"
     else:
@@ -827,7 +848,11 @@ def split_retry_cond(c, retvar, fdvar, name):
         rest = rest[1:]
     if rest != ["should_block(%s)" % fdvar]:
         reject("%s: retry condition must end with should_block(%s): %s" % (name, fdvar, show(c)))
+    FRESH[name] = fresh
     return err, dw
+
+
+FRESH = {}
 
 
 def wait_stmt(s, fdvar, name):
@@ -1067,6 +1092,17 @@ def translate():
     R["ev_max_fd_type"] = m.group(1)
     ev_unsigned = m.group(1) in ("rlim_t", "size_t", "unsigned", "uint64_t", "uint32_t")
 
+    HELPER_OK[0] = False
+    if "fiber_io_would_block" in io_fns:
+        head, btoks = io_fns["fiber_io_would_block"]
+        htxt = " ".join(t[1] for t in head)
+        body = [sshow(x) for x in parse_body(btoks)]
+        if body != ["return ((errno==EWOULDBLOCK)||(errno==EAGAIN));"] and body != ["return ((errno==EAGAIN)||(errno==EWOULDBLOCK));"]:
+            reject("fiber_io_would_block: body not recognised: %s" % " ".join(body))
+        if "noinline" not in htxt:
+            reject("fiber_io_would_block must be noinline (otherwise the errno location is cached again)")
+        HELPER_OK[0] = True
+    FRESH.clear()
     bodies = {}
     for n in SHIMS + ["should_block", "setup_socket"]:
         if n not in io_fns:
@@ -1112,6 +1148,9 @@ def translate():
             reject("shim %s: shape not recognised:\n  %s" % (n, "\n  ".join(sshow(s) for s in bodies[n])))
         R["shims"].append(info)
 
+    # the errno test that follows a wait is evaluated on the kernel thread the fiber resumed on
+    R["errno_fresh"] = all(FRESH.get(x["name"], False) for x in R["shims"] if x["retry_errno"] == "EAGAIN")
+
     # ---- close
     ss, loaded = strip_loader(bodies["close"], "close")
     txt = [sshow(s) for s in ss]
@@ -1133,27 +1172,40 @@ def translate():
     if ftxt[:4] != pre:
         reject("fcntl: argument prelude not recognised: %s" % " ".join(ftxt[:4]))
     rest = fb[4:]
-    if len(rest) != 3 or rest[0][0] != "if" or show(rest[0][1]) != "!thread_locked" or rest[0][3] is not None or \
-            sshow(rest[1]) != 'if(!fibershim_fcntl){fibershim_fcntl=(fcntlFnType)dlsym(RTLD_NEXT,"fcntl");}' or \
-            sshow(rest[2]) != "return fibershim_fcntl(fd,cmd,val);":
-        reject("fcntl: body not recognised: %s" % " ".join(ftxt[4:]))
-    inner = rest[0][2]
-    if len(inner) != 2 or inner[0][0] != "if" or inner[0][3] is not None or \
-            sshow(inner[1]) != "if((cmd==F_SETFL)){val|=O_NONBLOCK;}":
-        reject("fcntl: intercept block not recognised: %s" % " ".join(sshow(x) for x in inner))
-    cparts = [show(p) for p in conj(inner[0][1])]
-    if cparts[:2] != ["(cmd==F_SETFL)", "((val==O_NONBLOCK)||(val==O_NDELAY))"]:
-        reject("fcntl: intercept condition not recognised: %s" % show(inner[0][1]))
-    extra = cparts[2:]
-    allowed_extra = {"(fd>=0)", "(fd<max_fd)", "fd_info", "(fd_info[fd].flags_&IO_FLAG_WAITABLE)"}
-    for x in extra:
-        if x not in allowed_extra:
-            reject("fcntl: extra intercept conjunct not recognised: %s" % x)
-    R["fcntl_managed_only"] = "(fd_info[fd].flags_&IO_FLAG_WAITABLE)" in extra
-    ups = flag_updates(inner[0][2], "fcntl")
-    body_txt = [sshow(x) for x in inner[0][2]]
-    if ups != [("atomic_fetch_and", "fd", "~IO_FLAG_BLOCKING")] or body_txt != ["atomic_fetch_and(&fd_info[fd].flags_,~IO_FLAG_BLOCKING);", "return 0;"]:
-        reject("fcntl: intercept action not recognised: %s" % " ".join(body_txt))
+    loader = 'if(!fibershim_fcntl){fibershim_fcntl=(fcntlFnType)dlsym(RTLD_NEXT,"fcntl");}'
+    tracking = [
+        "const int managed=(((!thread_locked&&(fd>=0))&&(fd<max_fd))&&(fd_info[fd].flags_&IO_FLAG_WAITABLE));",
+        "if((managed&&(cmd==F_SETFL))){if((val&O_NONBLOCK)){atomic_fetch_and(&fd_info[fd].flags_,~IO_FLAG_BLOCKING);}"
+        "else{atomic_fetch_or(&fd_info[fd].flags_,IO_FLAG_BLOCKING);}val|=O_NONBLOCK;}",
+        loader,
+        "int ret=fibershim_fcntl(fd,cmd,val);",
+        "if((((managed&&(cmd==F_GETFL))&&(ret>=0))&&(fd_info[fd].flags_&IO_FLAG_BLOCKING))){ret&=~O_NONBLOCK;}",
+        "return ret;"]
+    if [sshow(x) for x in rest] == tracking:
+        R["fcntl_tracks_mode"] = True
+        R["fcntl_managed_only"] = True
+    else:
+        R["fcntl_tracks_mode"] = False
+        if len(rest) != 3 or rest[0][0] != "if" or show(rest[0][1]) != "!thread_locked" or rest[0][3] is not None or \
+                sshow(rest[1]) != loader or sshow(rest[2]) != "return fibershim_fcntl(fd,cmd,val);":
+            reject("fcntl: body not recognised: %s" % " ".join(ftxt[4:]))
+        inner = rest[0][2]
+        if len(inner) != 2 or inner[0][0] != "if" or inner[0][3] is not None or \
+                sshow(inner[1]) != "if((cmd==F_SETFL)){val|=O_NONBLOCK;}":
+            reject("fcntl: intercept block not recognised: %s" % " ".join(sshow(x) for x in inner))
+        cparts = [show(p) for p in conj(inner[0][1])]
+        if cparts[:2] != ["(cmd==F_SETFL)", "((val==O_NONBLOCK)||(val==O_NDELAY))"]:
+            reject("fcntl: intercept condition not recognised: %s" % show(inner[0][1]))
+        extra = cparts[2:]
+        allowed_extra = {"(fd>=0)", "(fd<max_fd)", "fd_info", "(fd_info[fd].flags_&IO_FLAG_WAITABLE)"}
+        for x in extra:
+            if x not in allowed_extra:
+                reject("fcntl: extra intercept conjunct not recognised: %s" % x)
+        R["fcntl_managed_only"] = "(fd_info[fd].flags_&IO_FLAG_WAITABLE)" in extra
+        ups = flag_updates(inner[0][2], "fcntl")
+        body_txt = [sshow(x) for x in inner[0][2]]
+        if ups != [("atomic_fetch_and", "fd", "~IO_FLAG_BLOCKING")] or body_txt != ["atomic_fetch_and(&fd_info[fd].flags_,~IO_FLAG_BLOCKING);", "return 0;"]:
+            reject("fcntl: intercept action not recognised: %s" % " ".join(body_txt))
     R["shims"].append({"name": "fcntl", "real": "fcntl", "dir": "DirNone", "shape": "NoWait", "dontwait": False,
                        "retry_errno": "ENone", "newfd": False, "fdvar": "fd"})
 
@@ -1364,10 +1416,196 @@ def emit_coq(R):
     L.append("   the library manages (flag WAITABLE set) *)")
     L.append("Definition fcntl_managed_only : bool := %s." % cbool(R["fcntl_managed_only"]))
     L.append("Definition ioctl_managed_only : bool := %s." % cbool(R["ioctl_managed_only"]))
+    L.append("(* fcntl(F_SETFL, v) derives the caller-visible mode from v & O_NONBLOCK for every v, and")
+    L.append("   F_GETFL reports it (otherwise only v == O_NONBLOCK exactly is recognised) *)")
+    L.append("Definition fcntl_tracks_mode : bool := %s." % cbool(R["fcntl_tracks_mode"]))
+    L.append("(* the EAGAIN test of every retry condition re-reads errno through a noinline helper, i.e. on")
+    L.append("   the kernel thread the fiber resumed on (an inline `errno` may use the location of the")
+    L.append("   thread it ran on before fiber_wait_for_event: __errno_location() is declared const) *)")
+    L.append("Definition errno_fresh : bool := %s." % cbool(R["errno_fresh"]))
     L.append("")
     L.append("(* descriptor-wait layer *)")
     for k in sorted(R["wait"]):
         L.append("Definition ev_%s : bool := %s." % (k, cbool(R["wait"][k])))
+    L.append("")
+    return "\n".join(L)
+
+
+
+def meval(a, fl, B, W):
+    k = a[0]
+    if k == "MFlags":
+        return fl
+    if k == "MB":
+        return B
+    if k == "MW":
+        return W
+    if k == "MConst":
+        return a[1]
+    if k == "MNot":
+        return 1 if meval(a[1], fl, B, W) == 0 else 0
+    x, y = meval(a[1], fl, B, W), meval(a[2], fl, B, W)
+    return {"MAnd": x & y, "MOr": x | y, "MEq": int(x == y), "MNe": int(x != y)}[k]
+
+
+EXPECTED_DIR = {"read": "DirIn", "readv": "DirIn", "recv": "DirIn", "recvfrom": "DirIn", "recvmsg": "DirIn",
+                "accept": "DirIn", "write": "DirOut", "writev": "DirOut", "send": "DirOut", "sendto": "DirOut",
+                "sendmsg": "DirOut", "connect": "DirOut"}
+WAIT_KEYS = ["wake_all", "poll_locks", "poll_clears_fired", "poll_rearms_rest", "poll_wakes", "poll_unlocks",
+             "poll_order_ok", "close_locks", "close_deletes", "close_wakes_error", "close_unlocks", "wait_locks",
+             "wait_ors_in", "wait_ors_out", "wait_oneshot", "wait_arms", "wait_links", "wait_enqueues",
+             "wait_sets_waiting", "wait_unlock_after_switch", "wait_yields", "wait_reports_close", "wait_order_ok"]
+
+
+def blocking_ok(s):
+    return (s["shape"] in ("PreWaitLoop", "PostFailLoop") or
+            (s["shape"] == "SingleWait" and s["retry_errno"] == "EINPROGRESS") or
+            (s["shape"] == "NoWait" and s["retry_errno"] == "ENone"))
+
+
+def status(R):
+    """the side conditions of Properties_C08.v, evaluated here only to choose which
+    lemma to state in ShimMatch.v; Coq re-computes them (vm_compute), so a wrong
+    evaluation here cannot make a false lemma pass"""
+    B, W = R["consts"]["IO_FLAG_BLOCKING"], R["consts"]["IO_FLAG_WAITABLE"]
+    m = R["sb_mask"]
+    waiting = [s for s in R["shims"] if s["retry_errno"] != "ENone"]
+    st = {}
+    st["table_sane"] = (
+        len(R["shims"]) == 18 and
+        all(s["real"] == s["name"] and s["dir"] == EXPECTED_DIR.get(s["name"], "DirNone") for s in R["shims"]) and
+        all(s["dontwait"] for s in waiting if s["name"] in HAS_FLAGS_ARG) and
+        all(g in R["sb_guards"] for g in ("GNotLocked", "GInit", "GBelowMax")) and B == 1 and W == 2 and
+        meval(m, B | W, B, W) != 0)
+    st["mask_unmanaged"] = meval(m, 0, B, W) == 0 and meval(m, B, B, W) == 0
+    st["blocking_table"] = all(blocking_ok(s) for s in waiting)
+    st["mask"] = all(meval(m, fl, B, W) == 0 for fl in (0, B, W, B | W) if fl & B == 0)
+    b = R["bounds"]
+    st["bounds"] = b["should_block"] and b["close"] and b["fiber_fd_closed"] and b["fcntl"] and b["ioctl"]
+    st["managed"] = R["fcntl_managed_only"] and R["ioctl_managed_only"]
+    st["wait_layer"] = all(R["wait"][k] for k in WAIT_KEYS)
+    st["fcntl_tracks"] = R["fcntl_tracks_mode"]
+    st["errno_fresh"] = R["errno_fresh"]
+    return st
+
+
+def shim_record(s):
+    return ("{| sh_id := %s; sh_real := %s; sh_dir := %s; sh_shape := %s; sh_dontwait := %s; "
+            "sh_retry := %s; sh_newfd := %s |}" %
+            (shim_id(s["name"]), shim_id(s["real"]), s["dir"], s["shape"], cbool(s["dontwait"]),
+             s["retry_errno"], cbool(s["newfd"])))
+
+
+def emit_match(R):
+    st = status(R)
+    L = []
+    L.append("(* GENERATED by tools/gen/gen_shims.py together with ShimGen.v.  For each side")
+    L.append("   condition of Properties_C08.v: the lemma that it holds for the current tree and")
+    L.append("   the unconditional theorem, or the lemma that it fails and the refutation.")
+    L.append("   Which of the two is stated is chosen by the translator; Coq re-computes the")
+    L.append("   condition, so a wrong choice does not compile.  The check REQUIRES the *_holds")
+    L.append("   lemmas; a *_fails lemma is a finding. *)")
+    L.append("From Coq Require Import List ZArith Bool.")
+    L.append("From LF Require Import FdShim FdShimProofs Properties_C08.")
+    L.append("From LF Require Import gen.ShimGen.")
+    L.append("Import ListNotations.")
+    L.append("Open Scope Z_scope.")
+    L.append("")
+
+    def holds(name, cond):
+        L.append("Lemma %s_holds : %s = true.\nProof. vm_compute. reflexivity. Qed.\nPrint Assumptions %s_holds." % (name, cond, name))
+
+    def fails(name, cond):
+        L.append("Lemma %s_fails : %s = false.\nProof. vm_compute. reflexivity. Qed.\nPrint Assumptions %s_fails." % (name, cond, name))
+
+    def thm(name, body):
+        L.append("Definition %s := %s.\nPrint Assumptions %s." % (name, body, name))
+
+    (holds if st["table_sane"] else fails)("table_sane", "table_sane_b")
+    L.append("")
+    if st["blocking_table"]:
+        holds("blocking_table", "blocking_table_b")
+        thm("shim_blocking_never_eagain_here", "shim_blocking_never_eagain blocking_table_holds")
+    else:
+        fails("blocking_table", "blocking_table_b")
+        thm("blocking_shape_refuted", "shim_blocking_never_eagain_refutable blocking_table_fails")
+        for s in R["shims"]:
+            if s["retry_errno"] != "ENone" and not blocking_ok(s):
+                code = {"EAGAIN": 1, "EINPROGRESS": 4}[s["retry_errno"]]
+                nm = "%s_%s_refuted" % (s["name"], {"SingleRetry": "single_retry", "SingleWait": "single_wait",
+                                                     "NoWait": "no_wait"}.get(s["shape"], "shape"))
+                L.append("(* %s in blocking mode, descriptor never closed: the second real call also finds" % s["name"])
+                L.append("   nothing (another fiber took the connection) and its errno is returned *)")
+                L.append("Lemma %s :\n  snd (run %s false (fun _ => RErr %d) (fun _ => true) (fun _ => true) 4) =\n"
+                         "  Some (FromReal (RErr %d)).\nProof. vm_compute. reflexivity. Qed.\nPrint Assumptions %s."
+                         % (nm, shim_record(s), code, code, nm))
+    L.append("")
+    if st["mask"]:
+        holds("mask", "mask_b")
+        if st["table_sane"]:
+            thm("shim_nonblocking_immediate_here", "shim_nonblocking_immediate mask_holds table_sane_holds")
+    else:
+        fails("mask", "mask_b")
+        thm("should_block_mask_refuted", "shim_nonblocking_immediate_refutable mask_fails")
+    if st["mask_unmanaged"]:
+        holds("mask_unmanaged", "mask_unmanaged_b")
+        thm("unmanaged_never_blocks_here", "unmanaged_never_blocks mask_unmanaged_holds")
+    else:
+        fails("mask_unmanaged", "mask_unmanaged_b")
+    L.append("")
+    if st["bounds"]:
+        holds("bounds", "bounds_b")
+        thm("shim_bad_fd_in_bounds_here", "shim_bad_fd_in_bounds bounds_holds")
+    else:
+        fails("bounds", "bounds_b")
+        thm("bad_fd_bounds_refuted", "shim_bad_fd_in_bounds_refutable bounds_fails")
+        b = R["bounds"]
+        if not b["fiber_fd_closed"]:
+            L.append("(* close(-1): fiber_fd_closed indexes wait_info[-1] *)")
+            L.append("Lemma close_bad_fd_refuted : forall max_fd, In (WaitInfo, -1) (close_sites K max_fd (-1)) /\\ in_range max_fd (-1) = false.\n"
+                     "Proof. intros m. split; [apply unchecked_fd_closed; reflexivity|reflexivity]. Qed.\nPrint Assumptions close_bad_fd_refuted.")
+        if not b["fcntl"]:
+            L.append("(* fcntl(-1, F_SETFL, O_NONBLOCK): read-modify-write of fd_info[-1]%s *)" %
+                     ("" if R["fcntl_managed_only"] else ", reports success whatever the kernel says"))
+            L.append("Lemma fcntl_bad_fd_refuted : forall max_fd, In (FdInfo, -1) (fcntl_sites K max_fd (-1) 0)%s.\n"
+                     "Proof. intros m. %s Qed.\nPrint Assumptions fcntl_bad_fd_refuted." %
+                     (("" if R["fcntl_managed_only"] else " /\\ fcntl_result K W max_fd (-1) 0 (RErr 2) = ROk 0"),
+                      ("apply (unchecked_fcntl K W m); reflexivity." if R["fcntl_managed_only"] else
+                       "destruct (unchecked_fcntl K W m eq_refl (-1) 0) as [H1 H2]. split; [exact H1|apply H2; reflexivity].")))
+        if not b["ioctl"]:
+            L.append("(* ioctl(-1, FIONBIO, &on): read-modify-write of fd_info[-1] *)")
+            L.append("Lemma ioctl_bad_fd_refuted : forall max_fd, In (FdInfo, -1) (ioctl_sites K max_fd (-1) 0)%s.\n"
+                     "Proof. intros m. %s Qed.\nPrint Assumptions ioctl_bad_fd_refuted." %
+                     (("" if R["ioctl_managed_only"] else " /\\ ioctl_result K W max_fd (-1) 0 (RErr 2) = ROk 0"),
+                      ("apply (unchecked_ioctl K W m); reflexivity." if R["ioctl_managed_only"] else
+                       "destruct (unchecked_ioctl K W m eq_refl (-1) 0) as [H1 H2]. split; [exact H1|apply H2; reflexivity].")))
+    L.append("")
+    if st["managed"]:
+        holds("managed", "managed_b")
+        thm("shim_closed_fd_passthrough_here", "shim_closed_fd_passthrough managed_holds")
+    else:
+        fails("managed", "managed_b")
+        L.append("(* descriptor 5 of a table of 100, closed (byte 0): the kernel says EBADF, the caller is told 0 *)")
+        L.append("Lemma closed_fd_not_validated_refuted :\n  fcntl_result K W 100 5 0 (RErr 2) = ROk 0 \\/ ioctl_result K W 100 5 0 (RErr 2) = ROk 0.\n"
+                 "Proof. vm_compute. auto. Qed.\nPrint Assumptions closed_fd_not_validated_refuted.")
+    L.append("")
+    if st["wait_layer"]:
+        holds("wait_layer", "wait_layer_b")
+        thm("fdwait_every_waiter_woken_here", "fdwait_every_waiter_woken (eq_refl : ev_wake_all = true)")
+    else:
+        fails("wait_layer", "wait_layer_b")
+        if not R["wait"]["wake_all"]:
+            thm("fdwait_first_only_refuted", "fdwait_every_waiter_woken_refutable (eq_refl : ev_wake_all = false)")
+    L.append("")
+    if st["fcntl_tracks"]:
+        holds("fcntl_tracks", "fcntl_tracks_b")
+        thm("mode_follows_setfl_here", "mode_follows_setfl fcntl_tracks_holds")
+    else:
+        fails("fcntl_tracks", "fcntl_tracks_b")
+        L.append("(* F_SETFL with O_NONBLOCK and any other bit (what F_GETFL returns for a socket, O_RDWR) is not")
+        L.append("   recognised, and F_SETFL without O_NONBLOCK never restores blocking mode *)")
+    L.append("")
+    (holds if st["errno_fresh"] else fails)("errno_fresh", "errno_fresh_b")
     L.append("")
     return "\n".join(L)
 
@@ -1379,6 +1617,8 @@ def to_json(R):
         "shims": [{k: v for k, v in s.items() if k != "fdvar"} for s in R["shims"]],
         "bounds": R["bounds"], "wait": R["wait"],
         "fcntl_managed_only": R["fcntl_managed_only"], "ioctl_managed_only": R["ioctl_managed_only"],
+        "fcntl_tracks_mode": R["fcntl_tracks_mode"], "errno_fresh": R["errno_fresh"],
+        "status": status(R),
     }, indent=1, sort_keys=True)
 
 
@@ -1411,19 +1651,23 @@ def main(argv):
         sys.stdout.write(to_json(R) + "\n")
         return 0
     text = emit_coq(R)
+    mtext = emit_match(R)
     if mode == "stdout":
         sys.stdout.write(text)
+        sys.stdout.write("\n(* ---------------- ShimMatch.v ---------------- *)\n")
+        sys.stdout.write(mtext)
         return 0
     os.makedirs(os.path.dirname(out), exist_ok=True)
-    try:
-        old = open(out).read()
-    except OSError:
-        old = None
-    if old != text:
-        tmp = out + ".tmp.%d" % os.getpid()
-        with open(tmp, "w") as f:
-            f.write(text)
-        os.replace(tmp, out)
+    for path, body in ((out, text), (os.path.join(os.path.dirname(out), "ShimMatch.v"), mtext)):
+        try:
+            old = open(path).read()
+        except OSError:
+            old = None
+        if old != body:
+            tmp = path + ".tmp.%d" % os.getpid()
+            with open(tmp, "w") as f:
+                f.write(body)
+            os.replace(tmp, path)
     return 0
 
 
